@@ -14,6 +14,7 @@
    MODEL-DRIFT (second pass with Detailed=TRUE).
 """
 import configparser
+import random
 import copy
 import itertools
 import os
@@ -199,7 +200,7 @@ def run_case(case):
     from pero_ocr.layout_engines.smart_sorter import SmartRegionSorter
     page = build_page(case)
     tr = {"sorter": case["sorter"], "boxes": case["boxes"], "lattice": bool(case["lattice"]), "deskew": False,
-          "inp": project(page), "outcome": "ok", "out": []}
+          "inp": project(page), "outcome": "ok", "out": [], "scale": False, "flags": {"perm": True, "payload": True, "polys": True}}
     if case["sorter"] == "smart" and len(page.regions) >= 2:
         try:      # is this page de-skewed by the smart sorter? (then the lattice model of the *order* does not apply)
             rot = SmartRegionSorter.get_rotation(max(*page.regions, key=lambda reg: len(reg.lines)).lines)
@@ -208,6 +209,8 @@ def run_case(case):
             tr["deskew"] = True
     sorter = _sorter(case["sorter"], case["denom"])
     image = np.zeros((1, case["width"], 3), dtype=np.uint8)
+    if case.get("after_failure"):
+        _failing_call(sorter, image, [r["id"] for r in case["regions"]])
     old = signal.signal(signal.SIGALRM, _alarm)
     signal.setitimer(signal.ITIMER_REAL, WALL_LIMIT)
     try:
@@ -228,6 +231,57 @@ def run_case(case):
     return tr
 
 
+def _failing_call(sorter, image, ids=()):
+    """The sorters are long-lived objects (one per process, like the page parser's): before some cases the same object is handed
+    a slanted page one of whose regions has a two-point outline - a page outside the scope on which the call may raise half-way.
+    Whatever it does there, it must not leave anything behind for the next page (whose regions carry the same ids)."""
+    from pero_ocr.core.layout import PageLayout, RegionLayout, TextLine
+    page = PageLayout(id="bad", page_size=(400, image.shape[1]))
+    for k, poly in enumerate(([[10, 10], [90, 14], [88, 60], [8, 56]], [[120, 20], [180, 26]], [[10, 100], [90, 104], [88, 150], [8, 146]])):
+        rid = ids[k] if k < len(ids) else "r%d" % k
+        reg = RegionLayout(rid, np.array(poly, dtype=np.float64))
+        for j in range(2):
+            y = poly[0][1] + 10 + 12 * j
+            reg.lines.append(TextLine(id="%s-l%d" % (rid, j), baseline=np.array([[poly[0][0] + 2, y], [poly[0][0] + 60, y + 3]], dtype=np.float64),
+                                      polygon=np.array([[poly[0][0] + 2, y - 6], [poly[0][0] + 60, y - 3], [poly[0][0] + 60, y + 5],
+                                                        [poly[0][0] + 2, y + 2]], dtype=np.float64), heights=[6, 2], transcription="x"))
+        page.regions.append(reg)
+    old = signal.signal(signal.SIGALRM, _alarm)
+    signal.setitimer(signal.ITIMER_REAL, WALL_LIMIT)
+    try:
+        sorter.process_page(image, page)
+    except BaseException:
+        pass
+    finally:
+        signal.setitimer(signal.ITIMER_REAL, 0)
+        signal.signal(signal.SIGALRM, old)
+
+
+def run_scale(case):
+    """naive sorter on a page of case["n"] regions (small boxes scattered over a wide page)"""
+    from pero_ocr.core.layout import PageLayout, RegionLayout
+    rng = random.Random(case["seed"])
+    n, width = case["n"], 60000
+    page = PageLayout(id="big", page_size=(400, width))
+    polys = {}
+    for k in range(n):
+        x, y = rng.randrange(0, width - 20), rng.randrange(0, 380)
+        poly = np.array([[x, y], [x + 10, y], [x + 10, y + 8], [x, y + 8]], dtype=np.float64)
+        polys["r%d" % k] = poly.copy()
+        page.regions.append(RegionLayout("r%d" % k, poly))
+    tr = {"sorter": "naive", "boxes": [], "lattice": False, "deskew": False, "inp": [], "out": [], "outcome": "ok", "scale": True,
+          "n": n, "flags": {"perm": False, "payload": False, "polys": False}}
+    try:
+        res = _sorter("naive", 10).process_page(np.zeros((1, width, 3), dtype=np.uint8), page)
+        ids = [r.id for r in res.regions]
+        tr["flags"]["perm"] = len(ids) == n and set(ids) == set(polys)
+        tr["flags"]["payload"] = all(len(r.lines) == 0 and r.region_type is None for r in res.regions)
+        tr["flags"]["polys"] = all(r.id in polys and np.array_equal(np.asarray(r.polygon), polys[r.id]) for r in res.regions)
+    except Exception as ex:
+        tr["outcome"] = "exception:" + type(ex).__name__
+    return tr
+
+
 # ------------------------------------------------------------------------------------------------ verdicts
 CLAUSES = {0: "did not terminate normally", 1: "returned regions are not exactly the input regions once each",
            2: "type / lines / ids / text / heights / baselines / line outlines of a region changed",
@@ -235,14 +289,16 @@ CLAUSES = {0: "did not terminate normally", 1: "returned regions are not exactly
 
 
 def _size_class(n):
+    if isinstance(n, dict):
+        return "scale" if n.get("scale") else _size_class(len(n["inp"]))
     return "empty-page" if n == 0 else ("single-region" if n == 1 else "n>=2")
 
 
 def signature(tr, prog):
     if prog == 0:
-        return "%s:%s:%s" % (tr["sorter"], tr["outcome"], _size_class(len(tr["inp"])))
+        return "%s:%s:%s" % (tr["sorter"], tr["outcome"], _size_class(tr))
     return "%s:%s:%s" % (tr["sorter"], {1: "not-a-permutation", 2: "payload-changed", 3: "geometry-changed"}.get(prog, "clause%d" % prog),
-                         _size_class(len(tr["inp"])))
+                         _size_class(tr))
 
 
 def judge(ctx, cases, traces, label, count=True, drift=True):
@@ -262,7 +318,7 @@ def judge(ctx, cases, traces, label, count=True, drift=True):
     for i, prog in rej:
         tr = traces[i]
         what = "%s sorter, %d regions: %s (outcome %s); input ids %s, returned ids %s" % (
-            tr["sorter"], len(tr["inp"]), CLAUSES.get(prog, "clause %d" % prog), tr["outcome"],
+            tr["sorter"], tr.get("n", len(tr["inp"])), CLAUSES.get(prog, "clause %d" % prog), tr["outcome"],
             [r["id"] for r in tr["inp"]], [r["id"] for r in tr["out"]])
         _PENDING.append(({"case": cases[i], "progress": prog}, signature(tr, prog), what))
     if drift:
@@ -339,6 +395,8 @@ def run(ctx):
     for g, maxn in lattices:
         pages = list(lattice_pages(g, maxn))
         cases = [lattice_case(p, s, idx) for idx, p in enumerate(pages) for s in ("smart", "naive")]
+        for k, c in enumerate(cases):
+            c["after_failure"] = k % 4 == 1        # the long-lived sorter object was handed a page it may fail on just before
         traces = pmap(run_case, cases, procs=PROCS)
         _dbg(ctx, "executed %d" % len(cases))
         consts = design_constants(2, 1)
@@ -384,8 +442,16 @@ def run(ctx):
     # free-form pages (arbitrary polygons, slanted lines): property-level only
     nfree = 400 if quick else 6000
     cases = [free_case(ctx.rng, s) for _ in range(nfree) for s in ("smart", "naive")]
+    for k, c in enumerate(cases):
+        c["after_failure"] = k % 3 == 0        # the long-lived sorter object was handed a page it may fail on just before
     traces = pmap(run_case, cases, procs=PROCS)
     judge(ctx, cases, traces, "free-form pages", drift=False)
+    # scale: more regions than a 15- / 16-bit index can address
+    scases = [{"n": n, "seed": ctx.seed + n, "scale": True} for n in ([40000] if quick else [40000, 70000, 33000])]
+    straces = [run_scale(c) for c in scases]
+    judge(ctx, scases, straces, "pages of tens of thousands of regions", count=False, drift=False)
+    for c in scases:
+        ctx.count(1, ("scale", c["n"]))
     ctx.notes["deskewed_pages_executed"] = sum(1 for t in traces if t["deskew"])
 
     flush(ctx)
@@ -399,6 +465,6 @@ def run(ctx):
 def replay(ctx, rec):
     import pero_ocr.layout_engines.smart_sorter    # noqa: F401
     case = rec["case"]
-    traces = [run_case(case)]
+    traces = [run_scale(case) if case.get("scale") else run_case(case)]
     judge(ctx, [case], traces, "replay", drift=False)
     flush(ctx)
